@@ -84,6 +84,8 @@ def make_cfg(seed, i, typ):
                                npt_p=0.5, allow=("restarts", "regression", "growing"))
         if cfg.get("reg"):
             cfg["args"]["maxfun"] = min(cfg["args"]["maxfun"], 25)
+        if i % 4 == 1:
+            cfg = campaign.growing_restart_variant(cfg, rng, nan_fault=False)
     elif typ == "atmin":
         # x0 exactly at a minimiser with non-zero residual: no run ever makes strict progress
         n = int(rng.integers(1, 4))
